@@ -527,14 +527,24 @@ fn run_case(case: &Case, ctx: &mut Ctx) {
     }
 
     // Release: the slot given back is the slot handed out.
+    // (Every other case gives the buffer back by dropping it instead of
+    // calling release(): whatever the edits left in it, also nothing.)
+    let by_drop = case.edits.len() % 2 == 1;
+    let mut buf = Some(buf);
     if !ctx.failed() {
         let offered_before = sim::sim().the_ring().offered_buffers_all();
-        buf.release();
+        if by_drop {
+            classes.push("given-back-by-drop");
+            let _s = track::scope(track::TAG_A10);
+            drop(buf.take());
+        } else if let Some(b) = buf.as_mut() {
+            b.release();
+        }
         let offered_after = sim::sim().the_ring().offered_buffers_all();
         let new: Vec<_> = offered_after.iter().skip(offered_before.len()).collect();
         let ok = new.len() == 1 && new[0].bid as usize == bid && new[0].addr as usize == slot_addr && new[0].len as usize == buf_size;
         if !ok {
-            fail(ctx, "release-wrong-slot", format!("release gave back {:?}, expected exactly bid {bid} at {slot_addr:#x} with {buf_size} bytes", new.iter().map(|e| (e.bid, e.addr, e.len)).collect::<Vec<_>>()));
+            fail(ctx, "release-wrong-slot", format!("{} gave back {:?}, expected exactly bid {bid} at {slot_addr:#x} with {buf_size} bytes", if by_drop { "dropping the buffer" } else { "release" }, new.iter().map(|e| (e.bid, e.addr, e.len)).collect::<Vec<_>>()));
         }
     }
     sim::sim().enter_hook = None;
